@@ -1,7 +1,7 @@
 (* EngineFS.v — the engine model instantiated with finite sets of states (join as widening,
    meet as narrowing) and exact-image transformers: the setting of property C06. *)
 From Coq Require Import List Bool Arith NArith.
-From CrabV Require Import Fix.Wto Fix.Engine Fix.Kleene.
+From CrabV Require Import Fix.Wto Fix.Engine Fix.EngineBelow Fix.EngineCheck Fix.Kleene.
 Import ListNotations.
 
 Definition fs_ops (S : N) : aops N :=
@@ -14,3 +14,9 @@ Definition fs_engine (S : N) (F : flow) (w : wto) (delay desc : nat) (use_asm : 
   : option (est N) :=
   run N (fs_ops S) (fun n a => image (f_rel F n) a) (f_preds F) (nest_of w) (f_entry F)
       delay desc use_asm (f_asm F) fuel w (f_init F).
+
+(* the side conditions of theorem fs_engine_exact, as an executable test *)
+Definition fs_certified (S : N) (F : flow) (w : wto) (use_asm : bool) (e : est N) : bool :=
+  entry_ok (f_entry F) w &&
+  inductive_ok N (fs_ops S) (fun n a => image (f_rel F n) a) (f_preds F) (f_entry F) use_asm (f_asm F)
+               (f_init F) (seq 0 (f_blocks F)) (e_pre N e) (e_post N e).
